@@ -32,6 +32,8 @@ func checkC01(ctx *Ctx, r *Report) {
 	c01UnionTemplates(ctx, r)
 	c01TypeNameClauses(ctx, r)
 	c01SiblingReplacements(ctx, r)
+	c06NullableGuardExact(ctx, r)
+	c01DiscriminatorDistinct(ctx, r)
 	c01LoopLocalResult(ctx, r)
 }
 
@@ -46,6 +48,10 @@ func checkC11(ctx *Ctx, r *Report) {
 	c11ComprehensionVar(ctx, r)
 	// the Go side of the omission agreement
 	c01GoWireNames(ctx, r)
+	c11HintMonotone(ctx, r)
+	c11GoPointerLast(ctx, r)
+	c06ResolveBeforeKindTest(ctx, r)
+	inProgressRestored(ctx, r, []string{"internal/jennies/python/rawtypes.go"}, 1)
 }
 
 // ---------------------------------------------------------------------------
@@ -290,6 +296,75 @@ func c01NullableRead(ctx *Ctx, r *Report) {
 				}
 				return true
 			})
+			// … on every successful way out: a `return <type>, nil` must return the variable that received the node's
+			// nullable (assigned before, in a block enclosing the return) or delegate to another walker
+			if reads {
+				parents := parentMap(fd)
+				isLibNullable := func(e ast.Node) bool {
+					found := false
+					ast.Inspect(e, func(q ast.Node) bool {
+						if s, ok := q.(*ast.SelectorExpr); ok && s.Sel.Name == "Nullable" {
+							if lf := fieldOf(info, s); lf != nil && lf.Pkg() != nil && !strings.HasPrefix(lf.Pkg().Path(), modulePath) {
+								found = true
+							}
+						}
+						return true
+					})
+					return found
+				}
+				k := 0
+				ast.Inspect(fd.Body, func(m ast.Node) bool {
+					if _, ok := m.(*ast.FuncLit); ok {
+						return false
+					}
+					rs, ok := m.(*ast.ReturnStmt)
+					if !ok || len(rs.Results) != 2 || !isNilIdent(info, rs.Results[1]) {
+						return true
+					}
+					k++
+					good := false
+					switch x := ast.Unparen(rs.Results[0]).(type) {
+					case *ast.Ident:
+						v := objOf(info, x)
+						ast.Inspect(fd.Body, func(q ast.Node) bool {
+							as, ok := q.(*ast.AssignStmt)
+							if !ok || as.Pos() > rs.Pos() || len(as.Lhs) != 1 || len(as.Rhs) != 1 {
+								return true
+							}
+							sel, ok := ast.Unparen(as.Lhs[0]).(*ast.SelectorExpr)
+							if !ok || sel.Sel.Name != "Nullable" || !isLibNullable(as.Rhs[0]) {
+								return true
+							}
+							if id, ok := ast.Unparen(sel.X).(*ast.Ident); !ok || objOf(info, id) != v {
+								return true
+							}
+							// the assignment's block encloses the return
+							blk := parents[as]
+							for a := parents[rs]; a != nil; a = parents[a] {
+								if a == blk {
+									good = true
+								}
+							}
+							return true
+						})
+					case *ast.CallExpr:
+						if fn := callee(info, x); fn != nil && fn.Pkg() == p.Types && strings.HasPrefix(fn.Name(), "walk") {
+							good = true
+						}
+						if isLibNullable(x) {
+							good = true
+						}
+						if fn := callee(info, x); fn != nil && fn.Pkg() != nil && fn.Pkg().Path() == astPkgPath && fn.Name() == "Any" {
+							good = true // `any` already accepts null
+						}
+					default:
+						good = isLibNullable(x)
+					}
+					r.Check(good, "frontier/nullable-read", fmt.Sprintf("%s on successful return #%d", cons, k), rs.Pos(), "the returned type received the node's `nullable`",
+						fmt.Sprintf("internal/openapi.%s returns %s without giving it the node's `nullable` (the other ways out of the walker do): for that shape of schema a required nullable property becomes a plain Go value and null does not round-trip", fd.Name.Name, exprString(rs.Results[0])))
+					return true
+				})
+			}
 			r.Check(reads, "frontier/nullable-read", cons, fd.Pos(), "carries `nullable` into the IR",
 				fmt.Sprintf("internal/openapi.%s builds a type without reading the node's `nullable`: a document with null there is accepted by the schema, but the generated Go field is not a pointer — null decodes to the zero value and is re-encoded as false / 0 / \"\" (the sibling walkers carry it)", fd.Name.Name))
 		}
@@ -1033,4 +1108,353 @@ func c11ComprehensionVar(ctx *Ctx, r *Report) {
 	})
 	r.Count("dict comprehensions emitted by the python from_json generator", n)
 	r.Floor("dict comprehensions emitted by the python from_json generator", 1)
+}
+
+// c01DiscriminatorDistinct: the field DisjunctionInferMapping picks as discriminator must tell the members apart: the
+// statement that selects it has to depend on the candidates' *values* (the found-flag alone says the field exists, not
+// that it discriminates). With a constant shared by all members the mapping collapses to one entry and every document is
+// decoded as the same member.
+func c01DiscriminatorDistinct(ctx *Ctx, r *Report) {
+	fn := ctx.LookupMethod("internal/ast/compiler", "DisjunctionInferMapping", "inferDiscriminatorField")
+	fd, p := ctx.DeclOf(fn)
+	if fd == nil {
+		r.Undecided("anchor lost: DisjunctionInferMapping.inferDiscriminatorField")
+		return
+	}
+	info := p.TypesInfo
+	parents := parentMap(fd)
+	// the result variable: first result of the final return
+	var result types.Object
+	if rs, ok := fd.Body.List[len(fd.Body.List)-1].(*ast.ReturnStmt); ok && len(rs.Results) > 0 {
+		if id, ok := ast.Unparen(rs.Results[0]).(*ast.Ident); ok {
+			result = objOf(info, id)
+		}
+	}
+	if result == nil {
+		r.Undecided("anchor lost: result variable of inferDiscriminatorField")
+		return
+	}
+	// values read from a map of maps of any (the candidates), and what they flow into
+	tainted := map[types.Object]bool{}
+	for round := 0; round < 3; round++ {
+		ast.Inspect(fd.Body, func(m ast.Node) bool {
+			as, ok := m.(*ast.AssignStmt)
+			if !ok {
+				return true
+			}
+			// value, ok := candidates[a][b]
+			if len(as.Lhs) == 2 && len(as.Rhs) == 1 {
+				if ix, ok := ast.Unparen(as.Rhs[0]).(*ast.IndexExpr); ok {
+					if _, inner := ast.Unparen(ix.X).(*ast.IndexExpr); inner {
+						if id, ok := as.Lhs[0].(*ast.Ident); ok && id.Name != "_" {
+							tainted[objOf(info, id)] = true
+						}
+					}
+				}
+			}
+			// set[value] = … / x = f(value)
+			uses := false
+			for _, e := range as.Rhs {
+				ast.Inspect(e, func(q ast.Node) bool {
+					if id, ok := q.(*ast.Ident); ok && tainted[objOf(info, id)] {
+						uses = true
+					}
+					return true
+				})
+			}
+			for _, l := range as.Lhs {
+				if ix, ok := ast.Unparen(l).(*ast.IndexExpr); ok {
+					keyTainted := false
+					ast.Inspect(ix.Index, func(q ast.Node) bool {
+						if id, ok := q.(*ast.Ident); ok && tainted[objOf(info, id)] {
+							keyTainted = true
+						}
+						return true
+					})
+					if keyTainted || uses {
+						if id, ok := ast.Unparen(ix.X).(*ast.Ident); ok {
+							tainted[objOf(info, id)] = true
+						}
+					}
+				} else if id, ok := ast.Unparen(l).(*ast.Ident); ok && uses {
+					tainted[objOf(info, id)] = true
+				}
+			}
+			return true
+		})
+	}
+	n := 0
+	ast.Inspect(fd.Body, func(m ast.Node) bool {
+		as, ok := m.(*ast.AssignStmt)
+		if !ok || len(as.Lhs) != 1 || as.Tok != token.ASSIGN {
+			return true
+		}
+		if id, ok := as.Lhs[0].(*ast.Ident); !ok || objOf(info, id) != result {
+			return true
+		}
+		n++
+		dependsOnValues := false
+		for _, ctl := range controllingIfs(parents, fd, as) {
+			ast.Inspect(ctl.Cond, func(q ast.Node) bool {
+				if id, ok := q.(*ast.Ident); ok && tainted[objOf(info, id)] {
+					dependsOnValues = true
+				}
+				return true
+			})
+		}
+		r.Check(dependsOnValues, "flow/discriminator-distinct", "DisjunctionInferMapping.inferDiscriminatorField selects a field", as.Pos(), "the selection depends on the values the field takes in the members",
+			"inferDiscriminatorField selects a field knowing only that every member has it as a constant: a constant shared by the members (`apiVersion: \"v1\"`) that sorts before the real discriminator is chosen, the mapping collapses to one entry and every document is decoded as the same member")
+		return true
+	})
+	r.Count("statements selecting the inferred discriminator", n)
+	r.Floor("statements selecting the inferred discriminator", 1)
+}
+
+// c11HintMonotone: Python's from_json generator derives the names it emits (comprehension variables by nesting depth,
+// decoding-map names) from the `hint` string it threads through the recursion. Every recursive call must hand down a hint
+// that extends the one it received (`hint + "_x"`): a hint rebuilt from something else resets the depth count, two nested
+// comprehensions share their variable, and the inner value expression indexes both levels with the inner key.
+func c11HintMonotone(ctx *Ctx, r *Report) {
+	p := ctx.Pkg("internal/jennies/python")
+	fn := ctx.LookupMethod("internal/jennies/python", "RawTypes", "fromJSONForTypeRec")
+	fd, _ := ctx.DeclOf(fn)
+	if p == nil || fd == nil {
+		r.Undecided("anchor lost: python.RawTypes.fromJSONForTypeRec")
+		return
+	}
+	info := p.TypesInfo
+	// index and object of the parameter named hint
+	idx, k := -1, 0
+	var hint types.Object
+	for _, f := range fd.Type.Params.List {
+		for _, nm := range f.Names {
+			if nm.Name == "hint" {
+				idx, hint = k, info.Defs[nm]
+			}
+			k++
+		}
+	}
+	if idx < 0 {
+		r.Undecided("anchor lost: parameter `hint` of fromJSONForTypeRec")
+		return
+	}
+	n := 0
+	ast.Inspect(fd.Body, func(m ast.Node) bool {
+		c, ok := m.(*ast.CallExpr)
+		if !ok {
+			return true
+		}
+		callee := callee(info, c)
+		if callee == nil || len(c.Args) <= idx {
+			return true
+		}
+		// recursive calls, and calls of the helpers of the same generator that take a hint at the same rank or by name
+		hintArg := ast.Expr(nil)
+		if callee == fn {
+			hintArg = c.Args[idx]
+		} else if cfd, _ := ctx.DeclOf(callee); cfd != nil && callee.Pkg() == p.Types {
+			j := 0
+			for _, f := range cfd.Type.Params.List {
+				for _, nm := range f.Names {
+					if nm.Name == "hint" && j < len(c.Args) {
+						hintArg = c.Args[j]
+					}
+					j++
+				}
+			}
+		}
+		if hintArg == nil {
+			return true
+		}
+		n++
+		extends := false
+		if be, ok := ast.Unparen(hintArg).(*ast.BinaryExpr); ok && be.Op == token.ADD {
+			if id, ok := ast.Unparen(be.X).(*ast.Ident); ok && objOf(info, id) == hint {
+				extends = true
+			}
+		}
+		if id, ok := ast.Unparen(hintArg).(*ast.Ident); ok && objOf(info, id) == hint {
+			extends = true
+		}
+		r.Check(extends, "skeleton/hint-monotone", fmt.Sprintf("python fromJSONForTypeRec hands a hint to %s #%d", callee.Name(), n), c.Pos(), "the hint handed down extends the one received",
+			fmt.Sprintf("fromJSONForTypeRec calls %s with the hint %s, which does not start with the hint it received: the nesting depth counted from the hint restarts, a map nested behind this point reuses the comprehension variable of the enclosing map (KeyError, or values read under the wrong key)", callee.Name(), exprString(hintArg)))
+		return true
+	})
+	r.Count("hints handed down by the python from_json generator", n)
+	r.Floor("hints handed down by the python from_json generator", 4)
+}
+
+// c11GoPointerLast: Go's type formatter turns a nullable scalar into a pointer by prefixing the type name with `*`; every
+// replacement of the name by another value type (time.Time for date-time strings) has to happen before that, otherwise
+// the optional field is a plain value with `omitempty` — Go then writes "0001-01-01T00:00:00Z" where Python omits the key.
+// Slices and maps, which have their own nil, may replace the name afterwards.
+func c11GoPointerLast(ctx *Ctx, r *Report) {
+	p := ctx.Pkg("internal/jennies/golang")
+	fn := ctx.LookupMethod("internal/jennies/golang", "typeFormatter", "doFormatType")
+	fd, _ := ctx.DeclOf(fn)
+	if p == nil || fd == nil {
+		r.Undecided("anchor lost: golang.typeFormatter.doFormatType")
+		return
+	}
+	info := p.TypesInfo
+	n := 0
+	// blocks in which a variable receives "*" + itself
+	ast.Inspect(fd.Body, func(m ast.Node) bool {
+		blk, ok := m.(*ast.BlockStmt)
+		if !ok {
+			return true
+		}
+		for _, st := range blk.List {
+			is, ok := st.(*ast.IfStmt)
+			if !ok {
+				continue
+			}
+			var ptrVar types.Object
+			ast.Inspect(is.Body, func(q ast.Node) bool {
+				as, ok := q.(*ast.AssignStmt)
+				if !ok || len(as.Lhs) != 1 || len(as.Rhs) != 1 {
+					return true
+				}
+				be, ok := ast.Unparen(as.Rhs[0]).(*ast.BinaryExpr)
+				if !ok || be.Op != token.ADD {
+					return true
+				}
+				if lit, ok := ast.Unparen(be.X).(*ast.BasicLit); ok && lit.Value == `"*"` {
+					if id, ok := as.Lhs[0].(*ast.Ident); ok && strings.Contains(exprString(is.Cond), "Nullable") {
+						ptrVar = objOf(info, id)
+					}
+				}
+				return true
+			})
+			if ptrVar == nil {
+				continue
+			}
+			n++
+			// later statements of the same block assigning a literal value type to the same variable
+			bad := ""
+			for _, later := range blk.List {
+				if later.Pos() <= is.Pos() {
+					continue
+				}
+				ast.Inspect(later, func(q ast.Node) bool {
+					as, ok := q.(*ast.AssignStmt)
+					if !ok || len(as.Lhs) != 1 || len(as.Rhs) != 1 {
+						return true
+					}
+					id, ok := as.Lhs[0].(*ast.Ident)
+					if !ok || objOf(info, id) != ptrVar {
+						return true
+					}
+					if tv, ok := info.Types[as.Rhs[0]]; ok && tv.Value != nil {
+						v := strings.Trim(tv.Value.ExactString(), `"`)
+						if !strings.HasPrefix(v, "[]") && !strings.HasPrefix(v, "map[") && bad == "" {
+							bad = v
+						}
+					}
+					return true
+				})
+			}
+			r.Check(bad == "", "skeleton/go-pointer-last", fmt.Sprintf("golang.typeFormatter.doFormatType pointer prefix #%d", n), is.Pos(), "no value type replaces the name after the pointer prefix",
+				fmt.Sprintf("doFormatType replaces the type name by %q after the `*` of nullable types was prepended: an optional field of that type is declared as a plain value with omitempty — absent and zero are no longer told apart, and Go writes a zero value where Python omits the key", bad))
+		}
+		return true
+	})
+	r.Count("pointer prefixes in golang.doFormatType", n)
+	r.Floor("pointer prefixes in golang.doFormatType", 1)
+}
+
+// c06ResolveBeforeKindTest (contradiction rule): a function of a compiler pass that resolves one element of a list of
+// types before asking for its kind (`schema.Resolve(branches[0])`) believes that the elements may be references; a loop of
+// the same function that asks the kind of the other elements directly contradicts it — for a branch that is a reference
+// to a named scalar the two answers differ.
+func c06ResolveBeforeKindTest(ctx *Ctx, r *Report) {
+	p := ctx.Pkg("internal/ast/compiler")
+	if p == nil {
+		return
+	}
+	info := p.TypesInfo
+	ka := newKindAnalysis(ctx)
+	n := 0
+	for _, file := range p.Syntax {
+		for _, d := range file.Decls {
+			fd, ok := d.(*ast.FuncDecl)
+			if !ok || fd.Body == nil {
+				continue
+			}
+			fobj, _ := info.Defs[fd.Name].(*types.Func)
+			isResolve := func(c *ast.CallExpr) bool {
+				fn := callee(info, c)
+				return fn != nil && (fn.Name() == "Resolve" || fn.Name() == "ResolveToType" || fn.Name() == "ResolveRefs") && len(c.Args) == 1
+			}
+			// collections one element of which is resolved by constant index
+			resolvedColl := map[string]bool{}
+			ast.Inspect(fd.Body, func(m ast.Node) bool {
+				if c, ok := m.(*ast.CallExpr); ok && isResolve(c) {
+					if ix, ok := ast.Unparen(c.Args[0]).(*ast.IndexExpr); ok {
+						resolvedColl[exprString(ix.X)] = true
+					}
+				}
+				return true
+			})
+			if len(resolvedColl) == 0 {
+				continue
+			}
+			// what is asked of resolved values in this function (method names on variables bound to a Resolve result)
+			resolvedVars := map[types.Object]bool{}
+			ast.Inspect(fd.Body, func(m ast.Node) bool {
+				if as, ok := m.(*ast.AssignStmt); ok && len(as.Rhs) == 1 {
+					if c, ok := ast.Unparen(as.Rhs[0]).(*ast.CallExpr); ok && isResolve(c) {
+						if id, ok := as.Lhs[0].(*ast.Ident); ok {
+							resolvedVars[objOf(info, id)] = true
+						}
+					}
+				}
+				return true
+			})
+			askedOfResolved := map[string]bool{}
+			ast.Inspect(fd.Body, func(m ast.Node) bool {
+				if sel, ok := m.(*ast.SelectorExpr); ok {
+					if id, ok := ast.Unparen(sel.X).(*ast.Ident); ok && resolvedVars[objOf(info, id)] {
+						askedOfResolved[sel.Sel.Name] = true
+					}
+				}
+				return true
+			})
+			ast.Inspect(fd.Body, func(m ast.Node) bool {
+				rs, ok := m.(*ast.RangeStmt)
+				if !ok || !resolvedColl[exprString(rs.X)] {
+					return true
+				}
+				v, ok := rs.Value.(*ast.Ident)
+				if !ok {
+					return true
+				}
+				vo := info.Defs[v]
+				n++
+				direct := ""
+				ast.Inspect(rs.Body, func(q ast.Node) bool {
+					switch x := q.(type) {
+					case *ast.CallExpr:
+						if sel, ok := x.Fun.(*ast.SelectorExpr); ok {
+							if id, ok := ast.Unparen(sel.X).(*ast.Ident); ok && objOf(info, id) == vo {
+								if fn := callee(info, x); fn != nil && ka.predicates[fn.Origin()] != "" && askedOfResolved[fn.Name()] && direct == "" {
+									direct = exprString(x)
+								}
+							}
+						}
+					case *ast.SelectorExpr:
+						if id, ok := ast.Unparen(x.X).(*ast.Ident); ok && objOf(info, id) == vo && x.Sel.Name == "Kind" && askedOfResolved["Kind"] && direct == "" {
+							direct = exprString(x)
+						}
+					}
+					return true
+				})
+				r.Check(direct == "", "siblings/resolve-before-kind-test", fmt.Sprintf("%s loop over %s", ctx.FuncName(fobj), exprString(rs.X)), rs.Pos(), "elements are resolved before their kind is asked, like the element resolved outside the loop",
+					fmt.Sprintf("%s resolves %s[k] before testing its kind but asks `%s` of the loop's elements directly: a branch that is a reference to a named scalar answers differently in the two places (the union is not collapsed and gets no custom (un)marshalling)", ctx.FuncName(fobj), exprString(rs.X), direct))
+				return true
+			})
+		}
+	}
+	r.Count("loops over type lists one element of which is resolved in the same function", n)
+	r.Floor("loops over type lists one element of which is resolved in the same function", 1)
 }
